@@ -384,6 +384,12 @@ def judge_pairs(ctx, binary, pairs, shrink=True):
         verdicts.append(v)
         m = p.a["m"]
         sa, sb = oa["status"], ob["status"]
+        tie = p.kind == "perm" and m in KNN and knn_boundary_tie(p.a["X"], p.a["k"])
+        if tie and not (sa.startswith("harness") or sb.startswith("harness")):
+            # equidistant candidates for the last neighbour slot: WHICH of them is listed depends on the sample
+            # order, legitimately; the two graphs (hence connectivity, geodesics, weights) need not correspond
+            v["trivial"] = "knn-boundary-tie"
+            continue
         if sa != "ok" or sb != "ok":
             if sa.startswith("harness") or sb.startswith("harness"):
                 v["fail"] = ("harness", "harness error: %s / %s" % (sa, sb))
@@ -411,7 +417,6 @@ def judge_pairs(ctx, binary, pairs, shrink=True):
         # --- embedded distances
         n = len(oa["Y"])
         perm = p.perm if p.perm is not None else list(range(n))
-        tie = p.kind == "perm" and m in KNN and knn_boundary_tie(p.a["X"], p.a["k"])
         ga, gb = rel_gap(m, p.a["d"], oa["ev"]), rel_gap(m, p.b["d"], ob["ev"])
         small_gap = m != "passthru" and (ga is None or gb is None or ga < GAP_MIN or gb < GAP_MIN)
         v["gap"] = (ga, gb)
